@@ -315,9 +315,47 @@ def r5_filter_kernels(ctx, rule):
         ctx.bad(rule, q, 'regex filter shape', 'keep iff all regexes match the structure (not the probability)', None, fn)
 
 
+def r6_option_plumbing(ctx, rule):
+    """The filters the user asked for reach the filter functions unchanged."""
+    q = ER + 'parse_command_line'
+    fn = ctx.fn(q)
+    want = {"program_info['terminal_set']": ["[x.upper() for x in args.terminal_set.split(',')]", 'False'],
+            "program_info['regex']": ["[x for x in args.regex.split(',')]", "args.regex.split(',')"],
+            "program_info['min_length']": ['int(args.min_length)'], "program_info['max_length']": ['int(args.max_length)'],
+            "program_info['rule']": ['args.rule'], "program_info['copy']": ['args.copy']}
+    seen = {}
+    for s in walk_stmts(fn.body):
+        if isinstance(s, ast.Assign) and U(s.targets[0]) in want:
+            seen.setdefault(U(s.targets[0]), []).append(U(s.value))
+    ok = True
+    for k, allowed in want.items():
+        vals = seen.get(k, [])
+        if not vals or any(v not in allowed for v in vals):
+            ok = False
+            ctx.bad(rule, q, '%s = %s' % (k, vals), 'the option must reach the filter as the user gave it (no letters dropped, '
+                    'no bounds altered): otherwise structures are removed that pass the requested filter, or kept that fail it',
+                    {'assignments': seen}, fn)
+    # nothing removes letters from the set afterwards
+    for qq in (q, ER + 'edit_rules', ER + 'main'):
+        f2 = ctx.fn(qq)
+        for c in calls_in(f2):
+            if isinstance(c.func, ast.Attribute) and c.func.attr in ('remove', 'discard', 'pop') and 'terminal_set' in U(c.func.value):
+                ok = False
+                ctx.bad(rule, qq, 'terminal set altered: ' + U(c)[:60], 'the requested terminal set must be used as given', None, c)
+    ef = ctx.fn(ER + 'edit_rules')
+    txt = U(ef)
+    calls_ok = "edit_length(grammar, config.get('min_length'), config.get('max_length'))" in txt \
+        and "edit_terminal_set(grammar, config.get('terminal_set'))" in txt and "check_regex(grammar, config.get('regex'))" in txt
+    if not calls_ok:
+        ok = False
+        ctx.bad(rule, ER + 'edit_rules', 'filter calls', 'each filter must receive the corresponding option', None, ef)
+    if ok:
+        ctx.ok(rule, q, 'terminal set, regex list and length bounds reach the filters as given', {'assignments': seen})
+
+
 def rules(tier):
     return [('C20.R1', r1_effect_set), ('C20.R2', r2_tokeniser), ('C20.R3', r3_label_lengths), ('C20.R4', r4_reemission),
-            ('C20.R5', r5_filter_kernels)]
+            ('C20.R5', r5_filter_kernels), ('C20.R6', r6_option_plumbing)]
 
 
 META = {
